@@ -25,7 +25,8 @@ RULE = ("seeded random networks; history of 12-30 steps mixing edits (p/q/scalin
         "non-trivial = >= 4 calculations compared in the history; distinct = digest of the start net + history")
 ASSUMPTIONS = ["same outcome class required (ok / not converged / exception type); results within 1e-6 p.u., 1e-5 deg, 1e-5*(1+|S|)",
                "init='results' runs are compared with a fresh default-init run: when the fresh run converges the history run must converge to "
-               "the same solution (low-voltage alternate roots are counted, not judged)",
+               "the same solution (alternate roots - another voltage profile that satisfies Kirchhoff's balance of the same tables, reached directly "
+               "or, after a non-convergence within the iteration limit, with max_iteration=60 - are counted, not judged)",
                "init='results' re-runs the previous runpp with identical options (only tables were edited in between)",
                "init='results' is only issued when the previous calculation on the object was a converged AC power flow at most two "
                "switching / in_service edits ago (the property's 'nearby switching state')"]
@@ -149,20 +150,63 @@ def _compare(name, h, s, kw):
         dva = np.nanmax(np.abs((a.va_degree.values - b.va_degree.values + 180) % 360 - 180))
         if dva > 1e-5:
             return "res_bus.va_degree differs from the fresh copy by %.3e deg" % dva
-    for el, cols in (("line", ["p_from_mw", "p_to_mw", "loading_percent"]), ("trafo", ["p_hv_mw", "p_lv_mw", "loading_percent"]),
-                     ("ext_grid", ["p_mw"]), ("gen", ["p_mw"]), ("load", ["p_mw"])):
-        if len(h[el]):
-            x, y = h["res_" + el][cols].values.astype(float), s["res_" + el][cols].values.astype(float)
-            if x.shape != y.shape:
-                return "res_%s has another shape than on the fresh copy" % el
-            bad = ~((np.abs(x - y) <= 1e-5 * (1 + np.abs(x))) | (np.isnan(x) & np.isnan(y)))
+    for key in sorted(k for k in h.keys() if isinstance(k, str) and k.startswith("res_") and not k.endswith("_sc") and k != "res_bus"):
+        ta, tb = h[key], s.get(key)
+        if not isinstance(ta, pd.DataFrame) or not len(ta) or key[4:] not in h or not len(h[key[4:]]):
+            continue
+        if not isinstance(tb, pd.DataFrame) or ta.shape != tb.shape or list(ta.columns) != list(tb.columns):
+            return "%s has another shape than on the fresh copy" % key
+        for c in ta.columns:
+            if not pd.api.types.is_numeric_dtype(ta[c]) or not pd.api.types.is_numeric_dtype(tb[c]):
+                continue
+            x, y = ta[c].values.astype(float), tb[c].values.astype(float)
+            d = np.abs(x - y)
+            if "degree" in c:
+                d = np.abs((x - y + 180) % 360 - 180)
+            bad = ~((d <= 1e-5 * (1 + np.abs(x))) | (np.isnan(x) & np.isnan(y)) | (np.isinf(x) & (x == y)))
             if bad.any():
-                r, c = np.argwhere(bad)[0]
-                return "res_%s.%s[%s] = %.9g, fresh copy %.9g" % (el, cols[c], h[el].index[r], x[r, c], y[r, c])
+                r = int(np.argmax(bad))
+                return "%s.%s[%s] = %.9g, fresh copy %.9g" % (key, c, ta.index[r], x[r], y[r])
     return None
 
 
-COUNTERS = ["compared_calcs", "init_results_runs", "init_results_after_nan", "dc_runs", "sc_runs", "edits", "switch_edits",
+def _find_cut(net, g):
+    """an edit (table, index, column, has_internal, n_lost) that de-energizes part of the supplied network; cuts that black out an
+    in-service trafo3w / xward (elements with an internal bus) are preferred"""
+    from ..oracles import graph
+    try:
+        before, _ = graph.supplied_buses(net)
+    except Exception:  # noqa
+        return None
+    cands = [("line", i) for i in net.line.index[net.line.in_service.values]] + \
+            [("trafo", i) for i in net.trafo.index[net.trafo.in_service.values]] + \
+            [("switch", i) for i in net.switch.index[net.switch.closed.values]]
+    g.rng.shuffle(cands)
+    best = None
+    for el, i in cands[:25]:
+        col = "closed" if el == "switch" else "in_service"
+        net[el].at[i, col] = False
+        try:
+            after, _ = graph.supplied_buses(net)
+        except Exception:  # noqa
+            after = before
+        net[el].at[i, col] = True
+        lost = before - after
+        if not lost:
+            continue
+        internal = False
+        for t, cols in (("trafo3w", ("hv_bus", "mv_bus", "lv_bus")), ("xward", ("bus",))):
+            tab = net[t][net[t].in_service.values] if len(net[t]) else net[t]
+            for c in cols:
+                internal |= bool(len(tab) and set(tab[c].values) & lost)
+        cut = (el, i, col, internal, len(lost))
+        if internal:
+            return cut
+        best = best or cut
+    return best
+
+
+COUNTERS = ["restore_after_blackout", "restore_with_internal_bus", "compared_calcs", "init_results_runs", "init_results_after_nan", "dc_runs", "sc_runs", "edits", "switch_edits",
             "failed_calcs_in_history", "alternate_root"]
 
 
@@ -188,16 +232,42 @@ def run_case(seed, tier, case_no):
     hist, viols = [], []
     last_ok_ac, topo_since, had_nan, last_kw = False, 99, False, None
     n_steps = g.I(12, 30)
+    # scripted sub-history: black out a region, calculate, restore it, calculate from the previous results
+    script, script_at = [], (g.I(0, 8) if g.B(0.5) else -1)
     for step in range(n_steps):
-        if g.B(0.55):
+        if step == script_at:
+            cut = _find_cut(net, g)
+            if cut is not None:
+                kw0 = {"tolerance_mva": 1e-10, "calculate_voltage_angles": g.B(0.4)}
+                script = [("set", cut, False), ("calc", kw0), ("set", cut, True), ("results", cut)]
+        forced = script.pop(0) if script else None
+        if forced is not None and forced[0] == "set":
+            net[forced[1][0]].at[forced[1][1], forced[1][2]] = forced[2]
+            cnt["edits"] += 1
+            cnt["switch_edits"] += 1
+            hist.append("edit:%s %s[%s]" % ("restore" if forced[2] else "cut", forced[1][0], forced[1][1]))
+            topo_since += 1
+            continue
+        if forced is None and g.B(0.55):
             r = _edit(net, g, cnt)
             hist.append("edit")
             if r == "topo":
                 topo_since += 1
             continue
-        name, fn, kw, ref_kw = _calc(g, last_ok_ac, topo_since, last_kw)
+        if forced is not None and forced[0] == "calc":
+            name, fn, kw, ref_kw = "runpp", pp.runpp, dict(forced[1]), dict(forced[1])
+        elif forced is not None and forced[0] == "results":
+            if not (last_ok_ac and had_nan and last_kw is not None):
+                continue
+            ref_kw = {k: v for k, v in last_kw.items() if k != "init"}
+            name, fn, kw = "runpp", pp.runpp, dict(ref_kw, init="results")
+            cnt["restore_after_blackout"] += 1
+            cnt["restore_with_internal_bus"] += bool(forced[1][3])
+        else:
+            name, fn, kw, ref_kw = _calc(g, last_ok_ac, topo_since, last_kw)
         fresh = scrub(net)
         prev_vm = net.res_bus.vm_pu.copy() if kw.get("init") == "results" else None
+        before = copy.deepcopy(net) if kw.get("init") == "results" else None
         o_h = _outcome(fn, net, kw)
         o_s = _outcome(fn, fresh, ref_kw)
         hist.append("%s%s" % (name, ":results" if kw.get("init") == "results" else ""))
@@ -232,6 +302,17 @@ def run_case(seed, tier, case_no):
                 both = False
             if both:
                 msg = "ALT"
+        if msg and kw.get("init") == "results" and o_h == "notconv" and o_s == "ok":
+            # same phenomenon seen through the iteration limit: the start point lies in the basin of another root, which Newton-Raphson
+            # reaches with more iterations (a start vector containing NaN never converges and stays a violation)
+            from ..oracles import balance
+            try:
+                pp.runpp(before, **dict(kw, max_iteration=60))
+                if max(abs(m) for _g, m, _s, _k, e in balance.nodal_mismatch(before)[0] if e) < 1e-6 and \
+                        np.nanmax(np.abs(before.res_bus.vm_pu.values - fresh.res_bus.vm_pu.values)) > 1e-3:
+                    msg = "ALT"
+            except Exception:  # noqa
+                pass
         if msg == "ALT":
             cnt["alternate_root"] += 1
             msg = None
@@ -259,10 +340,17 @@ def run_case(seed, tier, case_no):
                     opened = set(net.switch.bus[(net.switch.et == "t3") & (net.switch.element == i3) & ~net.switch.closed].values) if len(net.switch) else set()
                     if opened or any(not bis.at[b_] for b_ in legs):
                         watch |= set(legs)
+                # counterfactual: with the fresh solution as previous result of exactly the buses that had none, the same call succeeds
+                nanb = [b_ for b_ in prev_vm.index[prev_vm.isna().values] if b_ in fva.index and not np.isnan(fva.at[b_])]
+                if nanb and before is not None:
+                    cf = copy.deepcopy(before)
+                    cf.res_bus.loc[nanb, ["vm_pu", "va_degree"]] = fresh.res_bus.loc[nanb, ["vm_pu", "va_degree"]].values
+                    if _outcome(fn, cf, kw) == "ok" and _compare(name, cf, fresh, kw) is None:
+                        mech = "init_results_flat_start_of_new_and_auxiliary_buses"
                 watch = [b_ for b_ in watch if b_ in fva.index and not np.isnan(fva.at[b_])]
                 if watch:
                     vw = fresh.res_bus.vm_pu.loc[watch].values * np.exp(1j * np.deg2rad(fva.loc[watch].values))
-                    if np.max(np.abs(vw - 1.0)) > 0.1:
+                    if mech is None and np.max(np.abs(vw - 1.0)) > 0.1:
                         mech = "init_results_flat_start_of_new_and_auxiliary_buses"
             viols.append(common.viol("step %d (%s %s): %s" % (step, name, kw, msg), mechanism=mech, history=hist[-12:], options=kw))
             break
